@@ -152,4 +152,490 @@ def Adapter.checkProps (a : Adapter) (p : Vid → Name → Bool) : Adapter :=
 
 def requiredOk (ir : IRQuery) (vid : Vid) (field : Name) : Bool := (requiredProps ir vid).contains field
 
+/-! ## Part 2: candidate values, mandatory edges, binding scopes -/
+
+def lookupArg (args : List (Name × Value)) (n : Name) : R Value :=
+  match args.find? (·.1 == n) with
+  | some (_, v) => .ok v
+  | none => .panic "query_variables[variable_name]: missing"
+
+/-- `Range::new` with its assertion as an `R` outcome. -/
+def rangeNew (s e : Bound) (nullIncluded : Bool) : R Range :=
+  match Range.new s e nullIncluded with
+  | .ok r => .ok r
+  | .panic => .panic "cannot bound range with null value"
+
+/-- `Range::with_end(end, null_included)`. -/
+def rangeWithEnd (e : Bound) (nullIncluded : Bool) : R Range := rangeNew .unbounded e nullIncluded
+/-- `Range::with_start(start, null_included)`. -/
+def rangeWithStart (s : Bound) (nullIncluded : Bool) : R Range := rangeNew s .unbounded nullIncluded
+
+/-! ### `filters.rs::candidate_from_statically_evaluated_filters` -/
+
+/-- The candidate one operator contributes for a known operand value (`Either::Left` arms of the
+`partition_map`); `none`: the filter goes to the post-processing list (`Either::Right`).
+`nullIncluded` is `true` in `filters.rs` ("nullability is handled by the initial candidate"). -/
+def candidateOfStatic (o : Filter.BinOp) (value : Value) : R (Option Candidate) :=
+  match o with
+  | .equals => .ok (some (.single value))
+  | .lessThan => (rangeWithEnd (.excluded value) true).map fun r => some (.range r)
+  | .lessThanOrEqual => (rangeWithEnd (.included value) true).map fun r => some (.range r)
+  | .greaterThan => (rangeWithStart (.excluded value) true).map fun r => some (.range r)
+  | .greaterThanOrEqual => (rangeWithStart (.included value) true).map fun r => some (.range r)
+  | .oneOf =>
+    match value with
+    | .list vs => .ok (some (.multiple vs))
+    | _ => .panic "query variable was not list-typed"
+  | .notEquals => .ok (if Cand.isNull value then some (.range Range.fullNonNull) else none)
+  | _ => .ok none
+
+inductive StaticPiece where
+  | cand (c : Candidate)
+  | post (f : IRFilter)
+
+/-- one element of `relevant_filters` in the `partition_map` -/
+def staticPiece (args : List (Name × Value)) (f : IRFilter) : R StaticPiece :=
+  match f.op with
+  | .un .isNull => .ok (.cand (.single .null))
+  | .un .isNotNull => .ok (.cand (.range Range.fullNonNull))
+  | .bin o =>
+    match f.right with
+    | some (.var n _) =>
+      -- `argument_value = Some(&query_variables[name])`
+      (lookupArg args n).bind fun value =>
+      (candidateOfStatic o value).map fun
+        | some c => .cand c
+        | none => .post f
+    | _ => .ok (.post f)      -- a tag operand (or none): `argument_value = None`
+
+/-- The values a post-processing filter disallows (`!=`: the operand; `not_one_of`: its elements);
+only filters with a variable operand are looked at. -/
+def disallowedOf (args : List (Name × Value)) (f : IRFilter) : R (List Value) :=
+  match f.right with
+  | some (.var n _) =>
+    (lookupArg args n).bind fun value =>
+    match f.op with
+    | .bin .notEquals => .ok [value]
+    | .bin .notOneOf =>
+      match value with
+      | .list vs => .ok vs
+      | _ => .panic "not_one_of operand was not a list"
+    | _ => .ok []
+  | _ => .ok []
+
+def StaticPiece.cand? : StaticPiece → Option Candidate
+  | .cand c => some c
+  | .post _ => none
+def StaticPiece.post? : StaticPiece → Option IRFilter
+  | .cand _ => none
+  | .post f => some f
+
+def initialCandidate (nullable : Bool) : Candidate :=
+  if nullable then .all else .range Range.fullNonNull
+
+/-- `candidate_from_statically_evaluated_filters(relevant_filters, query_variables, nullable)`. -/
+def staticCandidateOf (args : List (Name × Value)) (nullable : Bool) (fs : List IRFilter) :
+    R (Option Candidate) :=
+  (mapR (staticPiece args) fs).bind fun pieces =>
+  let cands := pieces.filterMap StaticPiece.cand?
+  let posts := pieces.filterMap StaticPiece.post?
+  if cands.isEmpty then .ok none
+  else
+    let c := (cands.foldl Candidate.intersect (initialCandidate nullable)).normalize
+    if posts.isEmpty then .ok (some c)
+    else
+      (flatMapR (disallowedOf args) posts).map fun disallowed =>
+        some (disallowed.foldl Candidate.exclude c)
+
+/-! ### hint objects -/
+
+/-- `execution_frontier`: `Included(v)` — data of `v` is available; `Excluded(v)` — not yet. -/
+inductive Frontier where
+  | incl (v : Vid)
+  | excl (v : Vid)
+  deriving Repr, DecidableEq
+
+/-- `(Bound::Unbounded, frontier).contains(&vid)`. -/
+def Frontier.contains : Frontier → Vid → Bool
+  | .incl f, v => v ≤ f
+  | .excl f, v => v < f
+
+/-- The fields of a `ResolveInfo` / `NeighborInfo` the hint methods look at. -/
+structure VInfo where
+  vid : Vid
+  /-- `starting_vertex` (`ResolveInfo`: the vertex itself): `resolve_on_component` is its component -/
+  startVid : Vid
+  frontier : Frontier
+  withinOptional : Bool
+  locallyNonBinding : Bool
+  /-- `ResolveInfo` (filters always bind; `make_*_edge_info` start a fresh scope) or `NeighborInfo` -/
+  isResolveInfo : Bool
+  deriving Repr
+
+/-- `non_binding_filters()`. -/
+def VInfo.nonBinding (i : VInfo) : Bool :=
+  if i.isResolveInfo then false else i.withinOptional || i.locallyNonBinding
+
+/-- `ResolveInfo::new(query, vid, vertex_completed)`. -/
+def VInfo.resolve (vid : Vid) (completed : Bool) : VInfo :=
+  ⟨vid, vid, if completed then .incl vid else .excl vid, false, false, true⟩
+
+/-- `check_locally_non_binding_filters_for_edge`. -/
+def locallyNonBindingEdge (e : IREdge) : Bool :=
+  match e.recursive with
+  | some r => decide (r.depth ≥ 2)
+  | none => false
+
+/-- `ResolveEdgeInfo::destination()` for a regular edge. -/
+def VInfo.ofEdge (e : IREdge) : VInfo :=
+  ⟨e.toVid, e.fromVid, .excl e.toVid, e.optional, locallyNonBindingEdge e, false⟩
+
+/-- `ResolveEdgeInfo::destination()` for a fold ("we are *currently* resolving the folded edge"). -/
+def VInfo.ofFold (f : Fold) : VInfo :=
+  ⟨f.toVid, f.fromVid, .excl f.toVid, false, false, false⟩
+
+/-! ### `statically_required_property` -/
+
+/-- `filters_on_local_property`. -/
+def filtersOn (v : IRVertex) (p : Name) : List IRFilter :=
+  v.filters.filter fun f => filterSubject f == some p
+
+def isStaticOperand (f : IRFilter) : Bool :=
+  match f.right with
+  | none => true
+  | some (.var _ _) => true
+  | some (.tag _) => false
+
+/-- `field.field_type.nullable()` of the filter's subject. -/
+def subjectNullable (f : IRFilter) : Bool :=
+  match f.left with
+  | .loc _ ty => ty.nulls.headD true
+  | .count => false
+
+/-- `statically_required_property(p)` on the hint object `i` of IR vertex `v`.  (The
+`debug_assert!` that the result is not `Range(full)` is kept: it is live in debug builds.) -/
+def staticallyRequired (args : List (Name × Value)) (i : VInfo) (v : IRVertex) (p : Name) :
+    R (Option Candidate) :=
+  if i.nonBinding then .ok none
+  else
+    match (filtersOn v p).filter isStaticOperand with
+    | [] => .ok none
+    | f0 :: rest =>
+      (staticCandidateOf args (subjectNullable f0) (f0 :: rest)).bind fun c =>
+        match c with
+        | some (.range r) =>
+          if Range.beq r Range.full then .panic "caught returning a range variant with a completely unrestricted range"
+          else .ok c
+        | _ => .ok c
+
+/-! ### `dynamically_required_property` and `DynamicallyResolvedValue::resolve` -/
+
+def isDynOp : FOp → Bool
+  | .bin .equals | .bin .notEquals | .bin .lessThan | .bin .lessThanOrEqual | .bin .greaterThan
+  | .bin .greaterThanOrEqual | .bin .oneOf => true
+  | _ => false
+
+def isOrderingOp : FOp → Bool
+  | .bin .lessThan | .bin .lessThanOrEqual | .bin .greaterThan | .bin .greaterThanOrEqual => true
+  | _ => false
+
+/-- the `relevant_filters` of `dynamically_required_property` -/
+def dynamicFilters (fr : Frontier) (v : IRVertex) (p : Name) : List IRFilter :=
+  (filtersOn v p).filter fun f =>
+    isDynOp f.op &&
+      match f.right with
+      | some (.tag (.ctx vid _ _)) => fr.contains vid
+      | some (.tag (.fcount _ root)) => fr.contains root
+      | _ => false
+
+/-- What a `DynamicallyResolvedValue` carries: the tag, the bare operation, the initial candidate
+(`resolve_on_component` is the component of `VInfo.startVid`). -/
+structure DynChoice where
+  field : FieldRef
+  op : Filter.BinOp
+  initial : Candidate
+
+/-- `filter_to_use`: an `=` filter, else a `one_of`, else an ordering filter, else the first. -/
+def filterToUse (first : IRFilter) (rel : List IRFilter) : IRFilter :=
+  match rel.find? (fun f => f.op == .bin .equals) with
+  | some f => f
+  | none =>
+    match rel.find? (fun f => f.op == .bin .oneOf) with
+    | some f => f
+    | none =>
+      match rel.find? (fun f => isOrderingOp f.op) with
+      | some f => f
+      | none => first
+
+/-- `dynamically_required_property(p)`. -/
+def dynamicallyRequired (args : List (Name × Value)) (i : VInfo) (v : IRVertex) (p : Name) :
+    R (Option DynChoice) :=
+  if i.nonBinding then .ok none
+  else
+    match dynamicFilters i.frontier v p with
+    | [] => .ok none
+    | first :: rest =>
+      (staticallyRequired args i v p).bind fun st =>
+      let initial := st.getD (initialCandidate (subjectNullable first))
+      let use := filterToUse first (first :: rest)
+      match use.right, use.op with
+      | some (.tag r), .bin o => .ok (some ⟨r, o, initial⟩)
+      | some (.tag _), .un _ => .panic "removing operands failed"
+      | some (.var _ _), _ => .panic "operand was not a tag"
+      | none, _ => .panic "filter did not have an operand"
+
+/-- `compute_candidate_from_operation` / `resolve_fold_specific_field` for one context: the
+candidate for a tag value.  `nullIncluded` = `true` on the context-field and imported-tag paths,
+`false` on the fold-count path.  Both `GreaterThanOrEqual` arms of `dynamic.rs` build
+`Range::with_end` (finding F-1); a null tag value reaches the assertion of `Range::new` (F-2). -/
+def candidateOfTag (nullIncluded : Bool) (o : Filter.BinOp) (t : Tagged) (initial : Candidate) :
+    R Candidate :=
+  match t with
+  | .nonexistent => .ok initial
+  | .some value =>
+    match o with
+    | .equals => .ok (initial.intersect (.single value))
+    | .notEquals => .ok (initial.exclude value)
+    | .lessThan =>
+      (rangeWithEnd (.excluded value) nullIncluded).map fun r => initial.intersect (.range r)
+    | .lessThanOrEqual =>
+      (rangeWithEnd (.included value) nullIncluded).map fun r => initial.intersect (.range r)
+    | .greaterThan =>
+      (rangeWithStart (.excluded value) nullIncluded).map fun r => initial.intersect (.range r)
+    | .greaterThanOrEqual =>
+      (rangeWithEnd (.included value) nullIncluded).map fun r => initial.intersect (.range r)
+    | .oneOf =>
+      match value with
+      | .list vs => .ok (initial.intersect (.multiple vs))
+      | _ => .panic "produced an invalid value when resolving @tag"
+    | _ => .panic "unsupported 'operation': unreachable!"
+
+/-- The repaired `>=` arm (`Range::with_start`), used to state what F-1 breaks. -/
+def candidateOfTagFixedGe (nullIncluded : Bool) (value : Value) (initial : Candidate) : R Candidate :=
+  (rangeWithStart (.included value) nullIncluded).map fun r => initial.intersect (.range r)
+
+/-- How `resolve` fetches the tag value for one context (`c.active` = the vertex whose neighbours are
+being resolved): imported tags when the tag's vertex / fold root precedes the root of
+`resolve_on_component`, else `compute_context_field_with_separate_value` /
+`compute_fold_specific_field_with_separate_value`. -/
+def resolveTagValue (env : Env) (comp : Component) (r : FieldRef) (c : Ctx) : R Tagged :=
+  match r with
+  | .ctx vid field _ =>
+    if vid < comp.root then
+      match c.tag? (.ctx vid field) with
+      | some t => .ok t
+      | none => .panic "ctx.imported_tags[&field_ref]"
+    else
+      match comp.vertex? vid with
+      | some vx =>
+        match c.vertexAt? vid with
+        | some target =>
+          (env.adapter.prop vid vx.typeName field target).map fun value =>
+            match target with
+            | some _ => Tagged.some value
+            | none => Tagged.nonexistent
+        | none => .panic "context.vertices[&vertex_id]"
+      | none =>
+        match c.tag? (.ctx vid field) with
+        | some t => .ok t
+        | none => .panic "context.imported_tags[&field_ref]"
+  | .fcount eid root =>
+    if root < comp.root then
+      match c.tag? (.fcount eid) with
+      | some t => .ok t
+      | none => .panic "ctx.imported_tags[&field_ref]"
+    else
+      match c.foldCount? eid with
+      | some none => .ok .nonexistent
+      | some (some n) => .ok (.some (.uint64 (UInt64.ofNat n)))
+      | none => .panic "ctx.folded_contexts[&fold_eid]"
+
+/-- `DynamicallyResolvedValue::resolve` for one context. -/
+def resolveDynamic (env : Env) (ir : IRQuery) (i : VInfo) (d : DynChoice) (c : Ctx) : R Candidate :=
+  match locate ir i.startVid with
+  | none => .panic "indexed_query.vids[&starting_vertex]"
+  | some (comp, _) =>
+    (resolveTagValue env comp d.field c).bind fun t =>
+      match d.field with
+      | .ctx _ _ _ => candidateOfTag true d.op t d.initial
+      | .fcount _ root =>
+        -- the imported-tag path goes through `compute_candidate_from_operation` (null included)
+        candidateOfTag (decide (root < comp.root)) d.op t d.initial
+
+/-! ### edges: `edges_with_name`, `is_mandatory`, `fold_requires_at_least_one_element` -/
+
+/-- `FieldValue::as_u64`. -/
+def asU64 : Value → Option Nat
+  | .uint64 u => some u.toNat
+  | .int64 i => if 0 ≤ i.toInt then some i.toInt.toNat else none
+  | _ => none
+
+/-- `fold_requires_at_least_one_element(query_variables, fold)`. -/
+def foldRequiresAtLeastOne (args : List (Name × Value)) (post : List IRFilter) : R Bool :=
+  (staticCandidateOf args false post).map fun c =>
+    match c with
+    | none => false
+    | some .impossible => false
+    | some (.single x) => decide ((asU64 x).getD 0 ≥ 1)
+    | some (.multiple xs) => xs.all fun x => decide ((asU64 x).getD 0 ≥ 1)
+    | some (.range r) =>
+      match r.start with
+      | .included x => decide ((asU64 x).getD 0 ≥ 1)
+      | .excluded x => (asU64 x).isSome
+      | .unbounded => false
+    | some .all => false
+
+inductive FoldState where
+  | none | foldedOptional | foldedMandatory
+  deriving Repr, DecidableEq
+
+/-- `EdgeInfo`. -/
+structure EInfo where
+  eid : Eid
+  name : Name
+  params : Params
+  optional : Bool
+  recursive : Bool
+  folded : FoldState
+  destination : VInfo
+  deriving Repr
+
+/-- `EdgeInfo::is_mandatory`. -/
+def EInfo.isMandatory (e : EInfo) : Bool :=
+  !(e.folded == .foldedOptional) && !e.optional && !e.recursive
+
+/-- `make_non_folded_edge_info` (`ResolveInfo`: the scope starts at the edge; `NeighborInfo`: the
+scope of the current hint object is inherited — *without* the edge's own `optional` flag). -/
+def VInfo.nonFoldedEdge (i : VInfo) (e : IREdge) : EInfo :=
+  { eid := e.eid, name := e.name, params := e.params, optional := e.optional,
+    recursive := e.recursive.isSome, folded := .none,
+    destination :=
+      { vid := e.toVid, startVid := i.startVid, frontier := i.frontier,
+        withinOptional := if i.isResolveInfo then e.optional else i.withinOptional,
+        locallyNonBinding := locallyNonBindingEdge e, isResolveInfo := false } }
+
+/-- `make_folded_edge_info`. -/
+def VInfo.foldedEdge (args : List (Name × Value)) (i : VInfo) (f : Fold) : R EInfo :=
+  (foldRequiresAtLeastOne args f.post).map fun atLeastOne =>
+    { eid := f.eid, name := f.name, params := f.params, optional := false, recursive := false,
+      folded := if atLeastOne then .foldedMandatory else .foldedOptional,
+      destination :=
+        { vid := f.toVid, startVid := i.startVid, frontier := i.frontier,
+          withinOptional :=
+            if i.isResolveInfo then !atLeastOne else i.withinOptional || !atLeastOne,
+          locallyNonBinding := false, isResolveInfo := false } }
+
+/-- `edges_with_name(name)` of the hint object `i` (its vertex lives in `comp`): the component's
+regular edges from the vertex in Eid order, then its folds. -/
+def edgesWithName (args : List (Name × Value)) (comp : Component) (i : VInfo) (name : Name) :
+    R (List EInfo) :=
+  let regular := (comp.edges.filter fun e => e.fromVid == i.vid && e.name == name).map i.nonFoldedEdge
+  (mapR (i.foldedEdge args) (comp.folds.filter fun f => f.fromVid == i.vid && f.name == name)).map
+    fun folded => regular ++ folded
+
+/-- `mandatory_edges_with_name(name)`. -/
+def mandatoryEdgesWithName (args : List (Name × Value)) (comp : Component) (i : VInfo) (name : Name) :
+    R (List EInfo) :=
+  if i.nonBinding then .ok []
+  else (edgesWithName args comp i name).map fun es => es.filter EInfo.isMandatory
+
+/-- the distinct names of the edges and folds leaving vertex `vid` of `comp` -/
+def outgoingNames (comp : Component) (vid : Vid) : List Name :=
+  dedupNames (((comp.edges.filter fun e => e.fromVid == vid).map (·.name)) ++
+    ((comp.folds.filter fun f => f.fromVid == vid).map (·.name)))
+
+/-- all mandatory edges of the hint object, over every edge name leaving its vertex -/
+def mandatoryEdges (args : List (Name × Value)) (comp : Component) (i : VInfo) : R (List EInfo) :=
+  flatMapR (mandatoryEdgesWithName args comp i) (outgoingNames comp i.vid)
+
+/-! ### the pruning adapter -/
+
+/-- the distinct filter subjects of a vertex (the only properties with a static candidate) -/
+def filterSubjects (v : IRVertex) : List Name := dedupNames (v.filters.filterMap filterSubject)
+
+def allR {α : Type} (f : α → R Bool) : List α → R Bool
+  | [] => .ok true
+  | x :: xs => (f x).bind fun b => if b then allR f xs else .ok false
+
+def anyR {α : Type} (f : α → R Bool) : List α → R Bool
+  | [] => .ok false
+  | x :: xs => (f x).bind fun b => if b then .ok true else anyR f xs
+
+/-- Does data vertex `x` satisfy every static candidate the hint object `i` reports? -/
+def passesStatic (ir : IRQuery) (args : List (Name × Value)) (d : Data) (i : VInfo) (x : VertexId) :
+    R Bool :=
+  match locate ir i.vid with
+  | none => .panic "indexed_query.vids[&vid]"
+  | some (_, v) =>
+    allR (fun p => (staticallyRequired args i v p).map fun
+      | none => true
+      | some c => c.mem (d.prop x p)) (filterSubjects v)
+
+/-- `keep fuel i x`: `x` satisfies the static candidates of `i`, and for every edge `i` reports as
+mandatory it has a neighbour (along that edge, with the edge's parameters) that is kept by the
+hints of the edge's destination — the look-ahead an adapter performs with
+`first_mandatory_edge(..).destination()`. -/
+def keepVertex (ir : IRQuery) (args : List (Name × Value)) (d : Data) :
+    Nat → VInfo → VertexId → R Bool
+  | 0, _, _ => .fuel
+  | fuel + 1, i, x =>
+    (passesStatic ir args d i x).bind fun ok =>
+      if !ok then .ok false
+      else
+        match locate ir i.vid with
+        | none => .panic "indexed_query.vids[&vid]"
+        | some (comp, _) =>
+          (mandatoryEdges args comp i).bind fun es =>
+            allR (fun (e : EInfo) =>
+              anyR (keepVertex ir args d fuel e.destination) (d.nbrs x e.name e.params)) es
+
+def filterR {α : Type} (f : α → R Bool) : List α → R (List α)
+  | [] => .ok []
+  | x :: xs => (f x).bind fun b => (filterR f xs).map fun r => if b then x :: r else r
+
+mutual
+def findEdgeC (eid : Eid) : Component → Option (IREdge ⊕ Fold)
+  | .mk _ _ es fs _ =>
+    match es.find? (·.eid == eid) with
+    | some e => some (.inl e)
+    | none => findEdgeF eid fs
+def findEdgeF (eid : Eid) : List Fold → Option (IREdge ⊕ Fold)
+  | [] => none
+  | .mk e f t n ps c im fo po :: rest =>
+    if e == eid then some (.inr (.mk e f t n ps c im fo po))
+    else
+      match findEdgeC eid c with
+      | some r => some r
+      | none => findEdgeF eid rest
+end
+
+/-- `indexed_query.eids[&eid]` followed by `ResolveEdgeInfo::destination()`. -/
+def destinationOf (ir : IRQuery) (eid : Eid) : Option VInfo :=
+  match findEdgeC eid ir.rootComponent with
+  | some (.inl e) => some (VInfo.ofEdge e)
+  | some (.inr f) => some (VInfo.ofFold f)
+  | none => none
+
+/-- The table adapter that *uses* the static hints: at `resolve_starting_vertices` and at
+`resolve_neighbors` it drops every destination vertex that `keepVertex` rejects for the hint object
+of the call (`ResolveInfo` of the root, not completed; `resolve_info.destination()` of the edge). -/
+def pruneAdapter (ir : IRQuery) (args : List (Name × Value)) (d : Data) : Adapter :=
+  { d.adapter with
+    start := fun edge ps vid =>
+      filterR (keepVertex ir args d 64 (VInfo.resolve vid false)) (d.start edge ps)
+    nbrs := fun eid _ edge ps v =>
+      match destinationOf ir eid with
+      | none => .panic "indexed_query.eids[&eid]"
+      | some i => filterR (keepVertex ir args d 64 i) (d.nbrsOpt v edge ps) }
+
+/-- The same with the static candidates only (no mandatory-edge look-ahead). -/
+def pruneStaticAdapter (ir : IRQuery) (args : List (Name × Value)) (d : Data) : Adapter :=
+  { d.adapter with
+    start := fun edge ps vid =>
+      filterR (passesStatic ir args d (VInfo.resolve vid false)) (d.start edge ps)
+    nbrs := fun eid _ edge ps v =>
+      match destinationOf ir eid with
+      | none => .panic "indexed_query.eids[&eid]"
+      | some i => filterR (passesStatic ir args d i) (d.nbrsOpt v edge ps) }
+
 end TF.Engine
